@@ -245,3 +245,15 @@ pub fn limit_memory() {
         let _ = libc::setrlimit(libc::RLIMIT_AS, &lim);
     }
 }
+
+/// Pairs (i, j) of DIFFERENT syntax nodes (preorder indices) with the same kind and the same start position —
+/// the outer and the inner node of a left-nested construct (`a.b.c`, `f()()`, `a[0][1]`, `a + b + c`).
+/// Anything that compares syntax-node references by position and kind instead of identity confuses them.
+pub fn same_start_pairs(info: &TreeInfo) -> Vec<(usize, usize)> {
+    let mut out = Vec::new();
+    for i in 0..info.nodes.len() { for j in (i + 1)..info.nodes.len() {
+        let (a, b) = (&info.nodes[i], &info.nodes[j]);
+        if a.kind() == b.kind() && a.start_position() == b.start_position() && a.is_named() && b.is_named() { out.push((i, j)); }
+    } }
+    out
+}
